@@ -5,7 +5,7 @@
    Statements only; proofs in Proofs/KVProofs.v, Proofs/InsertCompose.v (and Proofs/SplitProofs.v). *)
 From Coq Require Import QArith List Bool Arith.
 From NurbsV Require Import Base.Res Base.QList Spec.KnotSpec Spec.BSpline Model.KV Model.Basis Model.CurveM Model.Ops Model.CurveOps.
-From NurbsV Require Import Proofs.KVProofs Proofs.InsertCompose.
+From NurbsV Require Import Proofs.KVProofs Proofs.InsertCompose Proofs.SplitProofs.
 Import ListNotations.
 Open Scope Q_scope.
 
@@ -24,6 +24,160 @@ Theorem C07_refinement_preserves_curve : forall (k : kv) (nodes : list Q) (M : m
      curve_spec1 (kvec k') (kdeg k) (mvec M P) u == curve_spec1 (kvec k) (kdeg k) P u).
 Proof. exact knot_insert_curve. Qed.
 Print Assumptions C07_refinement_preserves_curve.
+
+(* ---- the pieces restrict the curve exactly, every u of each sub-interval (Proofs/SplitProofs.v).
+   exact_mult k nodes: no node lies within 1e-9 of a knot without being equal to it (the library reads
+   multiplicities with that tolerance; C07_needs_exact_multiplicity is the machine-checked counterexample
+   without the hypothesis - known finding K2). ---- *)
+Theorem C07_split_structure :
+  forall (k : kv) (nodes : list Q) (pieces : list kv),
+       WF (kvec k) (kdeg k) ->
+       ksplit k nodes = Ok pieces ->
+       let cp := cut_points k nodes in
+       S (length pieces) = length cp /\
+       nth 0 cp 0 == kumin k /\
+       nth (length cp - 1) cp 0 == kumax k /\
+       (forall m : nat,
+        (m < length pieces)%nat ->
+        let pc := nth m pieces k in
+        WF (kvec pc) (kdeg pc) /\
+        kdeg pc = kdeg k /\
+        nth m cp 0 < nth (S m) cp 0 /\
+        kumin pc == nth m cp 0 /\
+        kumax pc == nth (S m) cp 0 /\ first_q (kvec pc) == nth m cp 0 /\ last_q (kvec pc) == nth (S m) cp 0).
+Proof. exact ksplit_structure. Qed.
+Print Assumptions C07_split_structure.
+
+Theorem C07_split_total :
+  forall (k : kv) (nodes : list Q),
+       WF (kvec k) (kdeg k) -> kvalid k nodes = true -> exists pieces : list kv, ksplit k nodes = Ok pieces.
+Proof. exact ksplit_total. Qed.
+Print Assumptions C07_split_total.
+
+Theorem C07_split_refuses :
+  forall (k : kv) (nodes : list Q),
+       WF (kvec k) (kdeg k) ->
+       (kvalid k nodes = false -> ksplit k nodes = Err ValueError) /\
+       (forall e : exn, ksplit k nodes = Err e -> e = ValueError /\ kvalid k nodes = false).
+Proof. exact ksplit_refuses. Qed.
+Print Assumptions C07_split_refuses.
+
+Theorem C07_split_matrices :
+  forall (k : kv) (nodes : list Q) (Ms : list mat) (pieces : list kv),
+       WF (kvec k) (kdeg k) ->
+       exact_mult k nodes ->
+       split_curve k nodes = Ok Ms ->
+       ksplit k nodes = Ok pieces ->
+       length Ms = length pieces /\
+       (forall m : nat,
+        (m < length pieces)%nat ->
+        length (nth m Ms []) = knpts (nth m pieces k) /\
+        (forall (P : list Q) (u : Q),
+         length P = knpts k ->
+         kumin (nth m pieces k) <= u ->
+         u < kumax (nth m pieces k) \/ u <= kumax (nth m pieces k) /\ S m = length pieces ->
+         curve_spec1 (kvec (nth m pieces k)) (kdeg k) (mvec (nth m Ms []) P) u ==
+         curve_spec1 (kvec k) (kdeg k) P u)).
+Proof. exact split_curve_restrict. Qed.
+Print Assumptions C07_split_matrices.
+
+Theorem C07_split_spline :
+  forall (c : curve) (nodes : option (list Q)) (cs : list curve) (P : list (list Q)) (d : nat),
+       c_split c nodes = Ok cs ->
+       WF (kvec (ckv c)) (cdeg c) ->
+       exact_mult (ckv c) (split_nodes_of c nodes) ->
+       cP c = Some P ->
+       cW c = None ->
+       length P = cnpts c ->
+       Forall (fun pt : list Q => length pt = d) P ->
+       exists pieces : list kv,
+         ksplit (ckv c) (split_nodes_of c nodes) = Ok pieces /\
+         length cs = length pieces /\
+         (forall m : nat,
+          (m < length cs)%nat ->
+          ckv (nth m cs c) = nth m pieces (ckv c) /\
+          cW (nth m cs c) = None /\
+          (exists Pm : list pt,
+             cP (nth m cs c) = Some Pm /\
+             length Pm = cnpts (nth m cs c) /\
+             (forall u : Q,
+              kumin (ckv (nth m cs c)) <= u ->
+              u < kumax (ckv (nth m cs c)) \/ u <= kumax (ckv (nth m cs c)) /\ S m = length cs ->
+              Forall2 Qeq (curve_spec (kvec (ckv (nth m cs c))) (cdeg c) d Pm u)
+                (curve_spec (kvec (ckv c)) (cdeg c) d P u)))).
+Proof. exact c_split_spline. Qed.
+Print Assumptions C07_split_spline.
+
+Theorem C07_split_rational :
+  forall (c : curve) (nodes : option (list Q)) (cs : list curve) (P : list (list Q)) 
+         (Wt : list Q) (d : nat),
+       c_split c nodes = Ok cs ->
+       WF (kvec (ckv c)) (cdeg c) ->
+       exact_mult (ckv c) (split_nodes_of c nodes) ->
+       cP c = Some P ->
+       cW c = Some Wt ->
+       length P = cnpts c ->
+       length Wt = cnpts c ->
+       Forall (fun pt : list Q => length pt = d) P ->
+       Forall (fun w : Q => 0 < w) Wt ->
+       exists pieces : list kv,
+         ksplit (ckv c) (split_nodes_of c nodes) = Ok pieces /\
+         length cs = length pieces /\
+         (forall m : nat,
+          (m < length cs)%nat ->
+          ckv (nth m cs c) = nth m pieces (ckv c) /\
+          (exists (Pm : list pt) (Wm : list Q),
+             cP (nth m cs c) = Some Pm /\
+             cW (nth m cs c) = Some Wm /\
+             length Pm = cnpts (nth m cs c) /\
+             length Wm = cnpts (nth m cs c) /\
+             Forall (fun w : Q => 0 < w) Wm /\
+             (forall u : Q,
+              kumin (ckv (nth m cs c)) <= u ->
+              u < kumax (ckv (nth m cs c)) \/ u <= kumax (ckv (nth m cs c)) /\ S m = length cs ->
+              Forall2 Qeq (rational_spec (kvec (ckv (nth m cs c))) (cdeg c) d Wm Pm u)
+                (rational_spec (kvec (ckv c)) (cdeg c) d Wt P u)))).
+Proof. exact c_split_rational. Qed.
+Print Assumptions C07_split_rational.
+
+Theorem C07_basis_restriction :
+  forall (big : list Q) (p : nat) (a b : Q),
+       WF big p ->
+       a < b ->
+       count_q a big = (p + 1)%nat ->
+       count_q b big = (p + 1)%nat ->
+       let piece := piece_of big p a b in
+       let lower := lower_of big a in
+       WF piece p /\
+       Forall2 Qeq big (filter (below a) big ++ piece ++ filter (above b) big) /\
+       (forall u : Q,
+        a <= u ->
+        u < b \/ u <= b /\ b == last_q big ->
+        (forall i : nat, (i < npts_of piece p)%nat -> Nspec piece p p i u == Nspec big p p (lower + i) u) /\
+        (forall m : nat, (m < lower)%nat \/ (lower + npts_of piece p <= m)%nat -> Nspec big p p m u == 0) /\
+        (forall Qv : list Q,
+         curve_spec1 piece p (firstn (npts_of piece p) (skipn lower Qv)) u == curve_spec1 big p Qv u)).
+Proof. exact split_restrict_piece_of. Qed.
+Print Assumptions C07_basis_restriction.
+
+Theorem C07_needs_exact_multiplicity :
+  WF (kvec bad_k) (kdeg bad_k) /\
+       match split_curve bad_k bad_nodes with
+       | Ok Ms =>
+           match ksplit bad_k bad_nodes with
+           | Ok pieces =>
+               Qleb (kumin (nth 1 pieces bad_k)) (3 # 4) && Qltb (3 # 4) (kumax (nth 1 pieces bad_k)) &&
+               negb
+                 (Qeqb
+                    (curve_spec1 (kvec (nth 1 pieces bad_k)) 2 (mvec (nth 1 Ms []) [0; 0; 0; 1; 0]) (3 # 4))
+                    (curve_spec1 (kvec bad_k) 2 [0; 0; 0; 1; 0] (3 # 4)))
+           | Err _ => false
+           end
+       | Err _ => false
+       end = true.
+Proof. exact split_needs_exact_mult. Qed.
+Print Assumptions C07_needs_exact_multiplicity.
+
 
 Example C07_nonvacuous :
   match c_split (mkcurve (mkkv [0; 0; 0; 1#2; 1; 1; 1] 2) (Some [[1]; [2]; [-1]; [3]]) (Some [1; 2; 1#2; 1])) (Some [1#4]) with
